@@ -708,6 +708,78 @@ impl Actor for ExplosiveRx {
     }
 }
 
+/// rpc variants in shapes the first enum does not have: the reply port in front of, or in between, SEVERAL data
+/// fields of the same type (so that a decoder which exchanges two of them still type-checks: with mixed types such
+/// a decoder would not compile, which is a build failure of the harness, not a verdict)
+#[derive(RactorClusterMessage, Debug)]
+pub enum Wire2 {
+    #[rpc]
+    PortFirst2(RpcReplyPort<u8>, u16, u16),
+    #[rpc]
+    PortSecond3(u8, RpcReplyPort<u8>, u32, u32, u32),
+    #[rpc]
+    PortFirstMixed(RpcReplyPort<u8>, String, String, String),
+    #[rpc]
+    PortMiddle(u16, u16, RpcReplyPort<u8>, u16, u16),
+    #[rpc]
+    PortLast(u64, u64, RpcReplyPort<u8>),
+    #[rpc]
+    Named3 { a: u8, reply: RpcReplyPort<u8>, b: u8, c: u8 },
+}
+
+/// encode followed by decode of call variants (the encoder of a call spawns the task that forwards the reply, so
+/// this runs inside the scheduler): every data field comes back in its own position
+fn call_round_trip_body() -> vsched::Body {
+    Arc::new(move || {
+        Box::pin(async move {
+            let mut bad = Vec::new();
+            fn show(m: &Wire2) -> String {
+                match m {
+                    Wire2::PortFirst2(_, a, b) => format!("PortFirst2(port, {a}, {b})"),
+                    Wire2::PortSecond3(a, _, b, c, d) => format!("PortSecond3({a}, port, {b}, {c}, {d})"),
+                    Wire2::PortFirstMixed(_, a, b, c) => format!("PortFirstMixed(port, {a:?}, {b:?}, {c:?})"),
+                    Wire2::PortMiddle(a, b, _, c, d) => format!("PortMiddle({a}, {b}, port, {c}, {d})"),
+                    Wire2::PortLast(a, b, _) => format!("PortLast({a}, {b}, port)"),
+                    Wire2::Named3 { a, b, c, .. } => format!("Named3 {{ a: {a}, port, b: {b}, c: {c} }}"),
+                }
+            }
+            let mut keep = Vec::new();
+            let mut port = || {
+                let (tx, rx) = ractor::concurrency::oneshot();
+                keep.push(rx);
+                tx
+            };
+            let vals = vec![
+                Wire2::PortFirst2(port().into(), 1, 2),
+                Wire2::PortFirst2(port().into(), u16::MAX, 0),
+                Wire2::PortSecond3(9, port().into(), 1, 2, 3),
+                Wire2::PortFirstMixed(port().into(), "first".into(), String::new(), "last".into()),
+                Wire2::PortMiddle(1, 2, port().into(), 3, 4),
+                Wire2::PortLast(1, 2, port().into()),
+                Wire2::Named3 { a: 1, reply: port().into(), b: 2, c: 3 },
+            ];
+            let mut keys = Vec::new();
+            for v in vals {
+                let shown = show(&v);
+                match v.serialize().and_then(<Wire2 as Message>::deserialize) {
+                    Ok(back) => {
+                        let got = show(&back);
+                        if got != shown {
+                            bad.push(format!("derived call variant {shown} decodes as {got}"));
+                        }
+                        keys.push(got);
+                    }
+                    Err(_) => bad.push(format!("derived call variant {shown} does not round-trip")),
+                }
+            }
+            vsched::quiesce();
+            drop(keep);
+            vsched::quiesce();
+            Outcome { key: format!("{keys:?}"), violations: bad }
+        })
+    })
+}
+
 fn live_body(local: bool, explosive: bool, bad: usize) -> vsched::Body {
     Arc::new(move || {
         Box::pin(async move {
@@ -800,6 +872,7 @@ pub fn plan(tier: &str) -> Plan {
             }
         }
     }
+    units.push(Unit::explore(Job::new("roundtrip/derived-call-variants".to_string(), cfg.clone(), Some(1), call_round_trip_body())));
     units.extend(crate::nodes::c19_limit_units(thorough));
     Plan {
         property: "C19",
